@@ -29,7 +29,7 @@ RULE = ("one case = solver configuration (class, knobs) + matrix class + 1-2 sol
 PROBES = ["fallback_fired_forced", "fallback_fired_natural", "switched_back_to_cholesky", "cg_converged_at_iteration_0",
           "cg_restart_taken", "two_level_multigrid", "solve_after_second_update", "two_objects_interleaved", "dependent_columns",
           "auto_returned_cholesky", "auto_returned_ldl", "auto_returned_lu", "auto_returned_diagonal", "auto_returned_sparselu",
-          "trans_T_complex", "trans_H_complex"]
+          "trans_T_complex", "trans_H_complex", "rhs_fortran_order", "rhs_strided_view", "matrix_given_to_constructor", "one_by_one_matrix"]
 FAULT_KINDS = ["cholesky_fail_forced", "cholesky_fail_natural"]
 COMPONENTS = {"real": ["pymoto.solvers: SolverDiagonal, SolverDenseQR, SolverDenseLU, SolverDenseCholesky, SolverDenseLDL, "
                        "SolverSparseLU, CG, Preconditioner, DampedJacobi, SOR, ILU, GeometricMultigrid, auto_determine_solver",
@@ -76,7 +76,9 @@ def gen(rng, idx, tier):
     elif solver in ("cg_none", "cg_jacobi", "diag") and rng.random() < 0.5:
         sparse = "csc"
     big = tier == "thorough"
-    n = int(rng.integers(2, 25 if big else 13)) if sparse is None else int(rng.integers(3, 61 if big else 31))
+    n = int(rng.integers(1, 25 if big else 13)) if sparse is None else int(rng.integers(3, 61 if big else 31))
+    if n == 1 and cls in ("hindef_posdiag", "tril", "triu"):
+        n = 2
     knobs = dict(tol=float(rng.choice([1e-5, 1e-7, 1e-9])), restart=int(rng.choice([1, 2, 3, 7, 50])),
                  w=float(rng.choice([0.3, 0.6, 1.0])), wsor=float(rng.choice([0.8, 1.0, 1.5])),
                  smooth_steps=int(rng.choice([1, 2, 5])), cycle=str(rng.choice(["V", "W"])), verbosity=int(rng.choice([0, 0, 1, 2])),
@@ -256,6 +258,16 @@ def run(case):
                 with contextlib.redirect_stdout(out):
                     if ob["solver"] is None:
                         ob["solver"] = make_solver(case, A)
+                        if op["seed"] % 4 == 0 and not case["solver"].startswith(("auto", "cg_gmg")) and hasattr(ob["solver"], "__class__"):
+                            # the documented alternative: hand the matrix to the constructor (calls update right away)
+                            try:
+                                cls_ = type(ob["solver"])
+                                if cls_.__name__ in ("SolverDiagonal", "SolverDenseQR", "SolverDenseLU", "SolverDenseCholesky",
+                                                     "SolverDenseLDL", "SolverSparseLU"):
+                                    ob["solver"] = cls_(A)
+                                    probe("matrix_given_to_constructor")
+                            except TypeError:
+                                pass
                         tn = type(ob["solver"]).__name__
                         if case["solver"].startswith("auto"):
                             probe({"SolverDenseCholesky": "auto_returned_cholesky", "SolverDenseLDL": "auto_returned_ldl",
@@ -282,6 +294,8 @@ def run(case):
             if type(ob["solver"]).__name__ == "SolverDenseCholesky":
                 ob["chol_ok"] = not (forced or natural)
             ob["A"] = A
+            if A.shape[0] == 1:
+                probe("one_by_one_matrix")
             ob["nupd"] += 1
             ob["prev"] = None
             res["trace"].append(f"U:{op['pattern']}:{'F' if forced else ('N' if natural else '-')}")
@@ -302,6 +316,15 @@ def run(case):
         if op["dep"] and k >= 2:
             b[:, 1] = -1.5 * b[:, 0]
             probe("dependent_columns")
+        lay = op["seed"] % 5          # memory layout of the right-hand side (same values)
+        if lay == 1 and k >= 2:
+            b = np.asfortranarray(b)
+            probe("rhs_fortran_order")
+        elif lay == 2:
+            b = np.repeat(b, 2, axis=0)[::2]        # strided view
+            probe("rhs_strided_view")
+        elif lay == 3 and k == 0:
+            b = b[::-1][::-1]                       # view with a base
         M = G.opmat(A, trans)
         x0 = None
         if op["x0"] == "zero":
